@@ -309,11 +309,32 @@ func HarnessC03_skipparent() {
 // HarnessC03_symlink: a symlinked layer inherits from its target's name.
 func HarnessC03_symlink() {
 	vfsReset()
-	c0, c1 := c03Content(0), c03Content(1)
+	c0, c1, c2 := c03Content(0), c03Content(1), c03Content(2)
 	vfsAddFile("a."+c03Ext(), c0)
 	vfsAddFile("a.b.yaml", c1)
-	vfsAddSymlink("link.yaml", "a.b.yaml")
-	c03Same("symlink", c03Layers("link.yaml"), c03Fold([]map[string]any{c0, c1}))
+	vfsAddDir("d")
+	switch ndChoice(5) {
+	case 0: // one hop
+		vfsAddSymlink("link.yaml", "a.b.yaml")
+		c03Same("symlink", c03Layers("link.yaml"), c03Fold([]map[string]any{c0, c1}))
+	case 1: // two hops: still the FINAL target's name
+		vfsAddSymlink("prod.yaml", "a.b.yaml")
+		vfsAddSymlink("current.yaml", "prod.yaml")
+		c03Same("symlink2", c03Layers("current.yaml"), c03Fold([]map[string]any{c0, c1}))
+	case 2: // three hops through dotted intermediate names (which name no layer)
+		vfsAddSymlink("q.r.yaml", "a.b.yaml")
+		vfsAddSymlink("s.t.yaml", "q.r.yaml")
+		vfsAddSymlink("top.yaml", "s.t.yaml")
+		c03Same("symlink3", c03Layers("top.yaml"), c03Fold([]map[string]any{c0, c1}))
+	case 3: // a two-hop link as the file-name parent of a further layer
+		vfsAddSymlink("w.yaml", "a.b.yaml")
+		vfsAddSymlink("x.yaml", "w.yaml")
+		vfsAddFile("x.y.yaml", c2)
+		c03Same("symlinkparent", c03Layers("x.y.yaml"), c03Fold([]map[string]any{c0, c1, c2}))
+	default: // a link in another directory, relative target
+		vfsAddSymlink("d/far.yaml", "../a.b.yaml")
+		c03Same("symlinkdir", c03Layers("d/far.yaml"), c03Fold([]map[string]any{c0, c1}))
+	}
 	vCover("symlink.checked")
 }
 
